@@ -44,6 +44,8 @@ type c07Scn struct {
 	// with and without EOF-with-data), "splits" (every single split point, all-1-byte,
 	// 1-byte with zero-length reads)
 	Enum string `json:"enum,omitempty"`
+	// ViaContext: run through interp.New + ExecuteContext with a context that is never cancelled
+	ViaContext bool `json:"via_context,omitempty"`
 }
 
 type c07Rec struct {
@@ -271,6 +273,7 @@ func genDelivery(r *core.Rand, n int) core.Delivery {
 
 func (c07Engine) Gen(r *core.Rand, tier string, i int) any {
 	sc := &c07Scn{Mode: "main", Where: "stdin"}
+	sc.ViaContext = r.Chance(1, 5)
 	sc.RS = c07GenRS(r)
 	enumMax := 8
 	if tier == "thorough" {
@@ -558,7 +561,15 @@ func c07Exec(sc *c07Scn, ds []core.Delivery, log *core.Log) *c07Obs {
 	case sc.Where == "files2":
 		cfg.Args = []string{"f0", "f1"}
 	}
-	obs.Res = execProgram(prog, cfg)
+	if sc.ViaContext {
+		it, ierr := interp.New(prog)
+		if ierr != nil {
+			core.Fatal("C07: New: %v", ierr)
+		}
+		obs.Res = guarded(func() (int, error) { return it.ExecuteContext(core.NewSimContext(), cfg) })
+	} else {
+		obs.Res = execProgram(prog, cfg)
+	}
 	if sc.Mode == "getline-two" {
 		var g []c07Rec
 		for src := 1; src <= 2; src++ {
@@ -728,7 +739,7 @@ func c07Check(sc *c07Scn, datas [][]byte, ds []core.Delivery, obs, base *c07Obs,
 		for i := range ds {
 			parts = append(parts, fmt.Sprintf("src%d=%q chunks=%v eof_with_data=%v", i, clip(string(datas[i]), 60), clipInts(ds[i].Chunks), ds[i].EOFWithData))
 		}
-		return fmt.Sprintf("mode=%s/%s RS=%q %s", sc.Mode, sc.Where, rs, strings.Join(parts, " "))
+		return fmt.Sprintf("mode=%s/%s via_context=%v RS=%q %s", sc.Mode, sc.Where, sc.ViaContext, rs, strings.Join(parts, " "))
 	}
 	// Oracle 5: no panic.
 	if obs.Res.Panic != "" {
@@ -1023,6 +1034,9 @@ func (c07Engine) Shrink(scAny any) []any {
 		}
 		f(&c)
 		out = append(out, &c)
+	}
+	if sc.ViaContext {
+		add(func(c *c07Scn) { c.ViaContext = false })
 	}
 	// simpler mode / source
 	if sc.Mode != "main" || sc.Where != "stdin" {
